@@ -107,6 +107,34 @@ class C03(Prop):
                                 {"stream": "rx", "params": p, "src": src, "dst": dst, "can": can, "frames": nfr, "problems": res["problems"][:5],
                                  "ops_file": demodlib.save_ops([ln]), "sent_payloads_file": demodlib.save_ops([" ".join(map(str, x)) for x in sent])})
 
+    def dual_stage(self, ctx, demod, mod, n):
+        """a second demodulator instance in the same process keeps receiving end-of-transmission bursts while the first is in steady reception
+        of a long clean transmission (the function-local statics are shared): the first one's delivery must be unaffected"""
+        rng = ctx.rng
+        nfr = 200
+        audio = [rng.randrange(-8000, 8000) for _ in range(320 * nfr)]
+        tx, _, _ = demodlib.transmission(ctx, mod, "W1AW", "N0CALL", 5, audio)
+        sent = demodlib.sent_stream_payloads(ctx, mod, audio)
+        for trial in range(n):
+            p = {"gain": rng.choice([300, 1000, 3500]), "dc": rng.randrange(-300, 301), "sigma": [0, 20, 50][trial % 3], "delay": rng.randrange(1000),
+                 "ppm": [0, 200, -200, 60, -60, 120][trial % 6], "lead": 0, "leadn": 0, "level": 0, "seed": rng.randrange(10 ** 6), "app": 3}
+            if trial < 2:
+                p.update(gain=1000, dc=0)
+            ln, rep, rc, err = demodlib.run_rx(ctx, demod, p, tx)
+            ctx.count(("dual", tuple(sorted(p.items()))), nontrivial=True)
+            ctx.stat("rx:dual-instance-runs")
+            if rc != 0:
+                ctx.violate(f"rx2:abort:{core.first_frame(err)}", f"demodulator aborted with a second instance in the process: {core.first_err_line(err)}",
+                            {"stream": "rx", "params": p, "ops_file": demodlib.save_ops([ln]), "stderr": err[-2000:]})
+                continue
+            h, frames = demodlib.parse_frames(rep)
+            res = demodlib.judge_delivery(sent, frames)
+            if res["steady_frame"] is not None and res["problems"]:
+                ctx.violate("rx2:second-instance", f"steady reception from frame {res['steady_frame']} of {len(sent)} while a second demodulator instance in the same process "
+                            f"receives end-of-transmission bursts, then: {res['problems'][0]} [gain {p['gain']/1000}, sigma {p['sigma']/1e4}, {p['ppm']} ppm]",
+                            {"stream": "rx", "params": p, "problems": res["problems"][:5], "ops_file": demodlib.save_ops([ln]),
+                             "sent_payloads_file": demodlib.save_ops([" ".join(map(str, x)) for x in sent])})
+
     def traces(self, ctx, demod, mod, n):
         """trace inclusion: observed transitions of the real demodulator vs the control skeleton"""
         rng = ctx.rng
@@ -161,6 +189,7 @@ class C03(Prop):
         demod, mod = demodlib.drivers()
         quick = ctx.tier == "quick"
         self.traces(ctx, demod, mod, 8 if quick else 60)
+        self.dual_stage(ctx, demod, mod, 8 if quick else 60)
         self.explore(ctx, demod, mod, 10 if quick else 150, [20, 40, 60, 120] if quick else [20, 40, 60, 120, 300], stress=2 if quick else 20)
 
 
